@@ -122,7 +122,7 @@ def torn_caches(ses, prop):
             raw = idx[0].read_bytes()
             doc = raw.decode()
             L = len(raw)
-            step = 1 if ses.tier == "thorough" else max(1, L // (120 if level == "1.5" else 40))
+            step = max(1, L // (1500 if ses.tier == "thorough" else 120 if level == "1.5" else 40))  # every prefix would be ~10^5 opens
             special = [i + o for i, b in enumerate(raw) if b >= 0x80 for o in (0, 1)][:200]  # inside multi-byte characters
             cuts = sorted(set(list(range(0, min(L, 60))) + list(range(max(0, L - 60), L + 1)) + list(range(0, L + 1, step)) + special))
             bounds.append(f"level {level}: {len(cuts)} byte-prefix lengths of a {L}-byte index ({len(special)} inside multi-byte characters)")
